@@ -192,14 +192,21 @@ def run(prop, tier, replay, make_plan, level="model_checking", panic_props=("C01
         rows = []
         for i, h in enumerate(hs):
             steps = h["steps"]
-            if i % 3 == 2 and prop != "C06" and replay is None:
+            if i % 3 == 2 and prop != "C06" and replay is None and theory not in plan.external:
                 # every third history calls the public close() itself instead of close_until(never): no
                 # observation inside the loop, but the function a caller uses is the one that runs
-                # (not for C06: a close() that does not return could not be cut off)
+                # (not for C06: a close() that does not return could not be cut off; not for generated programs:
+                # their chase need not terminate and only close_until can be given a budget)
                 steps = [dict(st, raw=True) if st["op"] == "close" else st for st in steps]
             rows.append({"id": i + 1, "theory": theory, "fam": h["fam"], "steps": steps})
         vlib.write_ndjson(hpath, rows)
-        r = vlib.run([os.path.join(vlib.BIN, binary), hpath, tpath], timeout=1800)
+        try:
+            r = vlib.run([os.path.join(vlib.BIN, binary), hpath, tpath], timeout=900)
+        except Exception as ex:
+            if type(ex).__name__ != "TimeoutExpired":
+                raise
+            raise vlib.ToolError(f"{binary} did not finish the histories of {theory} within 15 min (a close() of the code under test "
+                                 "that does not return cannot be cut off from outside: no verdict)")
         if r.returncode != 0:
             raise vlib.ToolError(f"{binary} failed on {theory}: {r.stderr[-2000:]}")
         res = mcgen.validate_api_trace(theory, sig, stages, mpath, tpath, f"{prop.lower()}-{theory}-mon",
